@@ -64,4 +64,8 @@ MUTANTS = [
     {"id": "c08-n-tuple-copy", "expect": "silent", "edits": [(C, "            for part in list(other.chunks):", "            for part in tuple(other.chunks):")]},
     {"id": "c08-n-guarded-alias", "expect": "silent", "edits": [(C, "            for part in list(other.chunks):\n                self._append_chunk(part)", "            parts = other.chunks[:]\n            for part in parts:\n                self._append_chunk(part)")]},
     {"id": "c08-n-calc-len", "expect": "silent", "edits": [(C, "        result.scrlen = sum(len(c.text) for c in chunks_list)", "        result.scrlen = cls.calc_chunks_len(chunks_list)")]},
+    # R08j join language
+    {"id": "c08-join-sep-only-after-nonempty", "expect": "fire", "edits": [(C, '        is_first = True\n        for chunk in iterable:\n            if is_first:\n                is_first = False\n            else:\n                result += self\n            result += chunk\n', "        for chunk in iterable:\n            if result.chunks:\n                result += self\n            result += chunk\n")]},
+    {"id": "c08-n-join-enumerate", "expect": "silent", "edits": [(C, '        is_first = True\n        for chunk in iterable:\n            if is_first:\n                is_first = False\n            else:\n                result += self\n            result += chunk\n', "        for pos, chunk in enumerate(iterable):\n            if pos > 0:\n                result += self\n            result += chunk\n")]},
+    {"id": "c08-join-sep-after-every-item", "expect": "fire", "edits": [(C, '        is_first = True\n        for chunk in iterable:\n            if is_first:\n                is_first = False\n            else:\n                result += self\n            result += chunk\n', "        for chunk in iterable:\n            result += chunk\n            result += self\n")]},
 ]
